@@ -133,3 +133,8 @@ verif_proof! { [C22]
         leak(r);
     }
 }
+
+verif_proof! { [C30 C22 C20]
+    #[kani::unwind(6)]
+    fn c30_time_index_arbitrary_3() { arbitrary_track(3, 60); }
+}
